@@ -1,14 +1,420 @@
 package dsim
 
+// Worker / replay / witness entry points. The binary is a test binary only because
+// testing/synctest needs a *testing.T; it is driven by /verif/check through env vars.
+
 import (
+	"encoding/json"
+	"fmt"
 	"io"
 	"log"
+	"math/rand"
 	"os"
+	"path/filepath"
+	"runtime"
+	"sort"
+	"strconv"
+	"strings"
+	"sync/atomic"
 	"testing"
+	"time"
 )
+
+
+type PropDef struct {
+	ID   string
+	Rule string // how cases are generated and what makes one non-trivial / distinct
+	// Gen draws one plan. profile index lets a property rotate through sub-profiles.
+	Gen func(r *Rng, tier string, idx int) *Plan
+	Run func(t *testing.T, p *Plan) *Outcome
+	// Components: which parts ran real code and which ran a stub (for the evidence file)
+	Real, Stub []string
+	Assumptions []string
+}
+
+var registry = map[string]*PropDef{}
+
+func register(d *PropDef) { registry[d.ID] = d }
+
+// ---- known findings ----------------------------------------------------------
+
+type Finding struct {
+	Property  string `json:"property"`
+	Signature string `json:"signature"`
+	Status    string `json:"status"` // open | fixed
+	What      string `json:"what"`
+	Witness   string `json:"witness,omitempty"`
+	Commit    string `json:"commit,omitempty"`
+}
+
+type findingsFile struct {
+	Findings []Finding `json:"findings"`
+}
+
+var findings []Finding
+var openSigs = map[string]bool{}
+
+func loadFindings() {
+	path := os.Getenv("DSIM_FINDINGS")
+	if path == "" {
+		path = "/verif/KNOWN_FINDINGS.json"
+	}
+	b, err := os.ReadFile(path)
+	if err != nil {
+		return
+	}
+	var f findingsFile
+	if err := json.Unmarshal(b, &f); err != nil {
+		fmt.Fprintf(os.Stderr, "HARNESS: cannot parse %s: %v\n", path, err)
+		os.Exit(2)
+	}
+	findings = f.Findings
+	for _, x := range findings {
+		if x.Status == "open" {
+			openSigs[x.Signature] = true
+		}
+	}
+}
+
+// Avoiding reports whether sig names an open finding whose input class the
+// generators/runners should stay away from (never true for witness plans).
+func Avoiding(p *Plan, sig string) bool { return !p.NoAvoid && openSigs[sig] }
+
+// ---- watchdog ----------------------------------------------------------------
+
+var running atomic.Bool
+var hangFile string
+
+func watchdog() {
+	last := int64(-1)
+	still := 0
+	for {
+		time.Sleep(time.Second)
+		if !running.Load() {
+			still = 0
+			continue
+		}
+		cur := progressCtr.Load()
+		if cur == last {
+			still++
+		} else {
+			still = 0
+			last = cur
+		}
+		if still >= 20 {
+			buf := make([]byte, 8<<20)
+			n := runtime.Stack(buf, true)
+			if hangFile != "" {
+				_ = os.WriteFile(hangFile, buf[:n], 0o644)
+			}
+			fmt.Fprintf(os.Stderr, "WATCHDOG: no controller progress for 20s\n")
+			os.Exit(3)
+		}
+	}
+}
 
 func TestMain(m *testing.M) {
 	log.SetOutput(io.Discard)
 	initBaseConfig()
+	loadFindings()
+	go watchdog()
 	os.Exit(m.Run())
+}
+
+// ---- result ------------------------------------------------------------------
+
+type ViolationRec struct {
+	Sig    string `json:"sig"`
+	Detail string `json:"detail"`
+	Replay string `json:"replay"`
+	Seed   uint64 `json:"seed"`
+}
+
+type WorkerResult struct {
+	Prop        string            `json:"prop"`
+	Worker      int               `json:"worker"`
+	Runs        int               `json:"runs"`
+	Nontrivial  int               `json:"nontrivial"`
+	Distinct    []uint64          `json:"distinct"` // distinct non-trivial case hashes
+	States      []uint64          `json:"states"`   // distinct state digests
+	Steps       int               `json:"steps"`
+	SimTimeMs   int64             `json:"sim_time_ms"`
+	MultiChoice int               `json:"multi_choice"`
+	Faults      map[string]int    `json:"faults"`
+	Probes      map[string]int    `json:"probes"`
+	Sites       map[string]int    `json:"sites"`
+	KnownHits   map[string]int    `json:"known_hits"`
+	Skipped     int               `json:"skipped"`
+	Inconcl     int               `json:"inconclusive"`
+	Violations  []ViolationRec    `json:"violations"`
+	Samples     []json.RawMessage `json:"samples"`
+	WallS       float64           `json:"wall_s"`
+	Profiles    map[string]int    `json:"profiles"`
+	FirstSeed   uint64            `json:"first_seed"`
+	LastSeed    uint64            `json:"last_seed"`
+}
+
+func envInt(name string, def int) int {
+	if v := os.Getenv(name); v != "" {
+		if n, err := strconv.Atoi(v); err == nil {
+			return n
+		}
+	}
+	return def
+}
+
+func mixSeed(base uint64, worker, i int) uint64 {
+	x := base*1000003 + uint64(worker)*7919 + uint64(i)*104729 + 12345
+	x ^= x >> 33
+	x *= 0xff51afd7ed558ccd
+	x ^= x >> 33
+	return x
+}
+
+func seedGlobalRand(seed uint64) {
+	rand.Seed(int64(seed & 0x7fffffffffffffff))
+}
+
+func runPlan(t *testing.T, def *PropDef, p *Plan) (o *Outcome) {
+	seedGlobalRand(p.Seed)
+	running.Store(true)
+	defer running.Store(false)
+	progress()
+	o = def.Run(t, p)
+	if o == nil {
+		o = &Outcome{}
+	}
+	return o
+}
+
+// TestWorker is the single entry point.
+func TestWorker(t *testing.T) {
+	mode := os.Getenv("DSIM_MODE")
+	if mode == "" {
+		t.Skip("DSIM_MODE not set")
+	}
+	def := registry[os.Getenv("DSIM_PROP")]
+	if def == nil {
+		fmt.Fprintf(os.Stderr, "HARNESS: unknown property %q\n", os.Getenv("DSIM_PROP"))
+		os.Exit(2)
+	}
+	out := os.Getenv("DSIM_OUT")
+	hangFile = out + ".hang"
+	switch mode {
+	case "worker":
+		workerMain(t, def, out)
+	case "replay":
+		replayMain(t, def)
+	case "witness":
+		witnessMain(t, def)
+	case "shrink":
+		shrinkMain(t, def)
+	default:
+		fmt.Fprintf(os.Stderr, "HARNESS: unknown mode %q\n", mode)
+		os.Exit(2)
+	}
+}
+
+func workerMain(t *testing.T, def *PropDef, out string) {
+	tier := os.Getenv("DSIM_TIER")
+	if tier == "" {
+		tier = "quick"
+	}
+	base := uint64(envInt("DSIM_SEED", 1))
+	worker := envInt("DSIM_WORKER", 0)
+	maxRuns := envInt("DSIM_RUNS", 1<<30)
+	budget := time.Duration(envInt("DSIM_BUDGET_MS", 20000)) * time.Millisecond
+	outDir := os.Getenv("DSIM_REPLAY_DIR")
+	if outDir == "" {
+		outDir = "/verif/out/" + def.ID
+	}
+	_ = os.MkdirAll(outDir, 0o755)
+	curFile := out + ".current"
+	start := time.Now()
+	res := &WorkerResult{Prop: def.ID, Worker: worker, Faults: map[string]int{}, Probes: map[string]int{}, Sites: map[string]int{},
+		KnownHits: map[string]int{}, Profiles: map[string]int{}}
+	distinct := map[uint64]bool{}
+	states := map[uint64]bool{}
+	seenViol := map[string]bool{}
+	flush := func() {
+		res.Distinct = res.Distinct[:0]
+		for h := range distinct {
+			res.Distinct = append(res.Distinct, h)
+		}
+		sort.Slice(res.Distinct, func(i, j int) bool { return res.Distinct[i] < res.Distinct[j] })
+		res.States = res.States[:0]
+		for h := range states {
+			res.States = append(res.States, h)
+		}
+		sort.Slice(res.States, func(i, j int) bool { return res.States[i] < res.States[j] })
+		if len(res.States) > 20000 {
+			res.States = res.States[:20000]
+		}
+		res.WallS = time.Since(start).Seconds()
+		b, _ := json.Marshal(res)
+		_ = os.WriteFile(out+".tmp", b, 0o644)
+		_ = os.Rename(out+".tmp", out)
+	}
+	for i := 0; i < maxRuns; i++ {
+		if time.Since(start) > budget {
+			break
+		}
+		seed := mixSeed(base, worker, i)
+		p := def.Gen(NewRng(seed), tier, worker*100003+i)
+		p.Prop = def.ID
+		p.Seed = seed
+		if i == 0 {
+			res.FirstSeed = seed
+		}
+		res.LastSeed = seed
+		_ = p.Save(curFile)
+		o := runPlan(t, def, p)
+		res.Runs++
+		res.Profiles[p.Profile]++
+		res.Steps += o.Stats.Steps
+		res.SimTimeMs += o.Stats.SimTime.Milliseconds()
+		res.MultiChoice += o.Stats.MultiChoice
+		res.Skipped += o.Skipped
+		res.Inconcl += o.Inconcl
+		for k, v := range o.Stats.FaultsFired {
+			res.Faults[k] += v
+		}
+		for k, v := range o.Stats.Probes {
+			res.Probes[k] += v
+		}
+		for k, v := range o.Stats.SiteReleases {
+			res.Sites[k] += v
+		}
+		if !o.Trivial {
+			res.Nontrivial++
+			distinct[o.Sched^hashString(o.Class)] = true
+		}
+		for _, h := range o.StateH {
+			if len(states) < 50000 {
+				states[h] = true
+			}
+		}
+		if len(res.Samples) < 3 && !o.Trivial {
+			sm := map[string]any{"seed": seed, "profile": p.Profile, "knobs": p.Knobs, "sknobs": p.SKnobs, "init": opsStrings(p.Init), "ops": opsStrings(p.Ops), "outcome": o.Sample}
+			b, _ := json.Marshal(sm)
+			res.Samples = append(res.Samples, b)
+		}
+		if o.Sig != "" {
+			if openSigs[o.Sig] {
+				res.KnownHits[o.Sig]++
+			} else if !seenViol[o.Sig] {
+				seenViol[o.Sig] = true
+				min := Shrink(p, o.Sig, func(c *Plan) *Outcome { return runPlan(t, def, c) }, 400)
+				mo := runPlan(t, def, min)
+				min.ExpectSig = o.Sig
+				min.Detail = mo.Detail
+				min.EventLog = mo.Log
+				path := filepath.Join(outDir, fmt.Sprintf("%016x.json", hashString(o.Sig)))
+				_ = min.Save(path)
+				res.Violations = append(res.Violations, ViolationRec{Sig: o.Sig, Detail: mo.Detail, Replay: path, Seed: seed})
+				if len(res.Violations) >= 8 {
+					break
+				}
+			}
+		}
+		if i%50 == 0 {
+			flush()
+		}
+	}
+	flush()
+	_ = os.Remove(curFile)
+}
+
+func opsStrings(ops []Op) []string {
+	out := make([]string, len(ops))
+	for i, o := range ops {
+		out[i] = o.String()
+	}
+	return out
+}
+
+func replayMain(t *testing.T, def *PropDef) {
+	p, err := LoadPlan(os.Getenv("DSIM_REPLAY"))
+	if err != nil {
+		fmt.Fprintf(os.Stderr, "HARNESS: %v\n", err)
+		os.Exit(2)
+	}
+	o := runPlan(t, def, p)
+	for _, l := range o.Log {
+		fmt.Println("  " + l)
+	}
+	fmt.Printf("REPLAY signature=%q expected=%q\n", o.Sig, p.ExpectSig)
+	fmt.Printf("DETAIL %s\n", o.Detail)
+	if o.Sig != "" {
+		fmt.Printf("VIOLATION property=%s replay=%s\n", def.ID, os.Getenv("DSIM_REPLAY"))
+		if p.ExpectSig != "" && o.Sig != p.ExpectSig {
+			fmt.Println("NOTE: violation differs from the recorded one")
+		}
+		os.Exit(1)
+	}
+}
+
+func witnessMain(t *testing.T, def *PropDef) {
+	type wres struct {
+		Signature string `json:"signature"`
+		Got       string `json:"got"`
+		Reproduce bool   `json:"reproduces"`
+		What      string `json:"what"`
+		Status    string `json:"status"`
+	}
+	var all []wres
+	for _, f := range findings {
+		if f.Property != def.ID || f.Witness == "" {
+			continue
+		}
+		wp := f.Witness
+		if !filepath.IsAbs(wp) {
+			wp = filepath.Join("/verif", wp)
+		}
+		p, err := LoadPlan(wp)
+		if err != nil {
+			fmt.Fprintf(os.Stderr, "HARNESS: witness %s: %v\n", wp, err)
+			os.Exit(2)
+		}
+		p.NoAvoid = true
+		o := runPlan(t, def, p)
+		all = append(all, wres{Signature: f.Signature, Got: o.Sig, Reproduce: o.Sig == f.Signature, What: f.What, Status: f.Status})
+	}
+	b, _ := json.Marshal(all)
+	_ = os.WriteFile(os.Getenv("DSIM_OUT"), b, 0o644)
+}
+
+func shrinkMain(t *testing.T, def *PropDef) {
+	p, err := LoadPlan(os.Getenv("DSIM_REPLAY"))
+	if err != nil {
+		fmt.Fprintf(os.Stderr, "HARNESS: %v\n", err)
+		os.Exit(2)
+	}
+	o := runPlan(t, def, p)
+	if o.Sig == "" {
+		fmt.Println("plan does not fail")
+		return
+	}
+	min := Shrink(p, o.Sig, func(c *Plan) *Outcome { return runPlan(t, def, c) }, 2000)
+	mo := runPlan(t, def, min)
+	min.ExpectSig = o.Sig
+	min.Detail = mo.Detail
+	min.EventLog = mo.Log
+	_ = min.Save(os.Getenv("DSIM_OUT"))
+	fmt.Printf("shrunk: sig=%s ops=%d init=%d dice=%d\n", o.Sig, len(min.Ops), len(min.Init), len(min.Dice))
+}
+
+var _ = strings.ToLower
+
+// TestMeta prints the static description of a property (used by the driver for the evidence file).
+func TestMeta(t *testing.T) {
+	if os.Getenv("DSIM_MODE") != "meta" {
+		t.Skip()
+	}
+	def := registry[os.Getenv("DSIM_PROP")]
+	if def == nil {
+		return
+	}
+	b, _ := json.Marshal(map[string]any{"rule": def.Rule, "assumptions": def.Assumptions, "real": def.Real, "stub": def.Stub})
+	fmt.Println("META " + string(b))
 }
